@@ -41,7 +41,7 @@ BOUNDS = {'quick': "base programs: flat <= 3 steps and nested (one or two sub-ci
 OUTSIDE = ["user code assigning relation_link directly", "DynamicDurationStrategy callables", "matplotlib rendering (plot_circuit runs with the renderer stubbed)",
            "histories longer than the bound"]
 ASSUMPTIONS = ["H and H' are built from the same symbolic variables in the same process, H first", "hash(Sym) constant / == decided by the solver (cache hit iff durations equal)"]
-REQUIRED_REACH = ['C03.listing', 'C03.times', 'C03.duration', 'C03.acquisition', 'C03.stim', 'C03.nested_copy', 'C03.unrolled', 'C03.reflects_change']
+REQUIRED_REACH = ['C03.listing', 'C03.times', 'C03.duration', 'C03.acquisition', 'C03.stim', 'C03.nested_copy', 'C03.unrolled', 'C03.retained', 'C03.reflects_change']
 EXHAUSTIVE = {'quick': False, 'thorough': False}
 JOB_OPTS = {'quick': dict(max_paths=3000, max_seconds=400), 'thorough': dict(max_paths=20000, max_seconds=1500)}
 
@@ -63,6 +63,12 @@ def jobs(tier, seed):
                           {'k': ['W', 0, 'ALL'], 'rel': ['F', 0]}]}
     out.append({'prog': two_subs, 'events': ['ops'], 'final': 'nest', 'name': 'two relation-less sub-circuits, list, then nest'})
     out.append({'prog': {'steps': [{'k': ['R', 0, 'ALL'], 'rel': None}, {'k': ['W', 0, 'ALL'], 'rel': None}]}, 'events': ['times', 'setreg'], 'name': 'registry change between queries'})
+    chain = {'steps': [{'k': ['G', 'Rx180', [0]], 'rel': None}, {'k': ['W', 0, 'ALL'], 'rel': None}, {'k': ['M', 1, 'a'], 'rel': ['F', 1]}]}
+    rep_block = {'steps': [{'k': ['S', {'steps': [{'k': ['W', 0, 'ALL'], 'rel': None}, {'k': ['G', 'Rx180', [0]], 'rel': None}], 'rep': 2}], 'rel': None}]}
+    for prog in (chain, rep_block):
+        for events in (['enter', 'times', 'leave'], ['times', 'enter', 'leave'], ['apply', 'enter', 'times', 'leave'], ['apply', 'plot'], ['plot'], ['enter', 'plot', 'leave']):
+            for final in ('retained', 'times', 'unrolled'):
+                out.append({'prog': prog, 'events': events, 'final': final, 'name': 'override entered and left around an observation'})
     for _ in range(n_pairs):
         kind = rng.random()
         if kind < 0.35:
@@ -91,7 +97,7 @@ def jobs(tier, seed):
             events.append(rng.choice(OBS) if rng.random() < 0.55 else rng.choice(MUT))
         if not any(e in OBS for e in events):
             events.insert(rng.randrange(len(events) + 1), rng.choice(OBS))
-        out.append({'prog': prog, 'events': events, 'final': rng.choice(['times', 'times', 'nest', 'unrolled', 'stim'])})
+        out.append({'prog': prog, 'events': events, 'final': rng.choice(['times', 'times', 'nest', 'unrolled', 'stim', 'retained'])})
     return out
 
 
@@ -144,7 +150,8 @@ def play(ctx, params, with_observations: bool, g_out, g_in, stack):
     built = cm.build(ctx, params['prog'])
     circuit = built.circuit
     holder = {'circuit': circuit}
-    depth = 0
+    retained = circuit.operations if params.get('final') == 'retained' else []   # objects the user holds from the start (part of both histories)
+    open_overrides = []
     extra = 0
     for ev in params['events']:
         c = holder['circuit']
@@ -169,15 +176,28 @@ def play(ctx, params, with_observations: bool, g_out, g_in, stack):
             for i, key in enumerate(built.reg_keys):
                 built.registry.set_registry_at(key, ctx.real(f'v1_{i}', lo=0, reuse=True))
         elif ev == 'enter':
-            stack.enter_context(temporary_override_get_registry_at(g_in.table()))
-            depth += 1
+            cmgr = temporary_override_get_registry_at(g_in.table())
+            cmgr.__enter__()
+            open_overrides.append(cmgr)
         elif ev == 'leave':
-            pass  # leaving is modelled by the end of the history (overrides are lexically scoped context managers)
+            if open_overrides:
+                open_overrides.pop().__exit__(None, None, None)
     c = holder['circuit']
-    final = {'built': built, 'circuit': c}
+    final = {'built': built, 'circuit': c, 'inside_override': bool(open_overrides)}
+    try:
+        return _final(ctx, params, c, final, retained)
+    finally:
+        while open_overrides:
+            open_overrides.pop().__exit__(None, None, None)
+
+
+def _final(ctx, params, c, final, retained):
     which = params.get('final', 'times')
     # exactly one kind of final observation per run, so that no final observation can mask (or repair) another one
-    if which == 'nest':
+    if which == 'retained':
+        # no new listing: times are read through the operation objects obtained right after construction
+        final['retained'] = [(o.start_time, o.end_time) for o in retained]
+    elif which == 'nest':
         final['nested'] = observe_kind('nest', c)
     elif which == 'unrolled':
         u = c.apply_modifiers()
@@ -222,7 +242,7 @@ def run(ctx, params):
         return any(value_equal_siblings(k) for k in kids)
     info = {'events': params['events'], 'final': params.get('final', 'times'),
             'value_equal_sibling_sub_circuits': bool(value_equal_siblings(fa['circuit'].circuit_structure))}
-    for key in ('times', 'nested', 'unrolled'):
+    for key in ('times', 'nested', 'unrolled', 'retained'):
         if key in fa:
             ctx.observe(f'{key}.with', fa[key])
             ctx.observe(f'{key}.without', fb[key])
@@ -237,6 +257,8 @@ def run(ctx, params):
         ctx.check('C03.stim', fa['stim'] == fb['stim'], dict(info, with_observations=fa['stim'], without=fb['stim']))
     if 'nested' in fa:
         ctx.check('C03.nested_copy', pairs_equal(fa['nested'], fb['nested']), dict(info, with_observations=fa['nested'], without=fb['nested']))
+    if 'retained' in fa:
+        ctx.check('C03.retained', pairs_equal(fa['retained'], fb['retained']), dict(info, with_observations=fa['retained'], without=fb['retained']))
     if 'unrolled' in fa:
         ctx.check('C03.unrolled', pairs_equal(fa['unrolled'], fb['unrolled']), dict(info, with_observations=fa['unrolled'], without=fb['unrolled']))
     if 'times' not in fa:
@@ -244,7 +266,7 @@ def run(ctx, params):
     # ---- "a time reported after a duration setting changed reflects the change" ------------------------------------------------------
     # fresh build of the *same program* under the final settings, no history at all (only for histories without structural mutations)
     if not any(e in ('add', 'addsub', 'apply', 'flatten') for e in params['events']):
-        final_globals = g_in if 'enter' in params['events'] else g_out
+        final_globals = g_in if fa['inside_override'] else g_out
         with final_globals.override():
             built = cm.build(ctx, params['prog'])
             if 'setreg' in params['events']:
